@@ -12,6 +12,7 @@
  */
 
 #include "cppStructType.h"
+#include "cppArrayType.h"
 #include "cppTypedefType.h"
 #include "cppReferenceType.h"
 #include "cppScope.h"
@@ -693,7 +694,13 @@ is_copy_constructible(CPPVisibility min_vis) const {
       continue;
     }
 
-    if (!instance->_type->is_copy_constructible() ||
+    // An array member is copied element by element.
+    CPPType *member_type = instance->_type;
+    while (member_type->remove_cv()->as_array_type() != nullptr) {
+      member_type = member_type->remove_cv()->as_array_type()->_element_type;
+    }
+
+    if (!member_type->is_copy_constructible() ||
         !instance->_type->is_destructible()) {
       return false;
     }
